@@ -388,7 +388,7 @@ class Spec(PropSpec):
         cases += [F.gen_net(rng) for _ in range(260 * n)]
         cases += [F.gen_wrap(rng) for _ in range(40 * n)]
         cases += [F.gen_dualstack(rng) for _ in range(40 * n)]
-        cases += [F.gen_passive_close(rng, variant=v) for v in (0, 1, 2) for _ in range(8 * n)]
+        cases += [F.gen_passive_close(rng, variant=v) for v in (0, 1, 2, 3) for _ in range(8 * n)]
         cases += [F.gen_dst_classes(rng) for _ in range(6 * n)]
         cases += [F.gen_failed_connect(rng) for _ in range(24 * n)]
         cases += [F.gen_addr_order(rng) for _ in range(12 * n)]
